@@ -558,23 +558,30 @@ def run(ctx):
     if pb:
         bins[("c05_probe_variadic", "asan")] = pb
 
-    # ---- execute, one run per binary --------------------------------------------------------
+    # ---- execute + judge, one binary at a time (results are dropped after a binary is judged) ----
     by_bin = {}
     for c in g.cases:
         by_bin.setdefault(c.bin, []).append(c)
     results = {}
     crashed = {}
     hacc = HookAcc()
-    ncrash = 0
-    for b, cs in by_bin.items():
+    ncrash = [0]
+    sample_lines = []
+
+    def execute(b):
+        results.clear()
+        crashed.clear()
+        cs = by_bin[b]
         res, crashes, touts = R.run_cases(bins[(b, "asan")], [(c.cid, c.line) for c in cs], timeout=1800)
         results.update(res)
         for cr in crashes:
             crashed[cr.case_id] = cr
-            ncrash += 1
+            ncrash[0] += 1
         for t_ in touts:
             ctx.inconc("timeout in case %s of %s" % (t_, b))
-    ctx.set("crashes_contained", ncrash)
+        for c in cs[:1] + [c for c in cs if c.mode == "multi"][:1] + [c for c in cs if c.mode == "huge"][:1]:
+            if c.cid in results and len(sample_lines) < 8:
+                sample_lines.append(dict(case=c.brief(), record=" ".join(split_hooks(results[c.cid])[0][:40])))
 
     # ---- judge --------------------------------------------------------------------------------
     REF = {}          # ("R", n, s, e, st) | ("I", n, i) -> ok   (packed reference encoding, index level)
@@ -583,8 +590,7 @@ def run(ctx):
     fam_fail_classes = {}
     stats = {}
     attributed = {"axis_class": 0, "own_key": 0}
-    missing = 0
-    compared = 0
+    compared = [0]
 
     def stat(c, ok):
         k = "%s/%s/%s" % (c.level, c.family, c.mode)
@@ -620,16 +626,20 @@ def run(ctx):
     def lvl(c):
         return "index" if c.level == "ix" else "view"
 
+    def is_ref(c):
+        return c.level == "ix" and c.mode == "single" and c.family == "packed" and c.kind == 0
+
+    def is_single(c):
+        return c.mode in ("single", "variadic1") or (c.mode in ("mutable", "variadic") and len(c.parts) == 1)
+
+    nmissing = [0]
+
     # pass 1: the reference encoding (packed, int parts, list<size_t> shape), single axis
-    rest = []
-    for c in g.cases:
-        if not (c.level == "ix" and c.mode == "single" and c.family == "packed" and c.kind == 0):
-            rest.append(c)
-            continue
+    def pass_ref(c):
         r = judge(c)
         if r is None:
-            missing += 1
-            continue
+            nmissing[0] += 1
+            return
         ctx.ev()
         ok, sym, text = r
         stat(c, ok)
@@ -652,16 +662,11 @@ def run(ctx):
 
     # pass 2: the other single-axis cases.  A failure on a case the reference also fails is the same defect
     # (reported under axis:<class>); a failure where the reference is right is a divergence of that encoding.
-    later = []
-    for c in rest:
-        single = c.mode in ("single", "variadic1") or (c.mode == "mutable" and len(c.parts) == 1) or (c.mode == "variadic" and len(c.parts) == 1)
-        if not single:
-            later.append(c)
-            continue
+    def pass_single(c):
         r = judge(c)
         if r is None:
-            missing += 1
-            continue
+            nmissing[0] += 1
+            return
         ctx.ev()
         ok, sym, text = r
         stat(c, ok)
@@ -676,23 +681,23 @@ def run(ctx):
             if not ok and not (ref is False and c.bin == "c05_probe_variadic" and sym != "crash"):
                 if ref is False and sym not in ("crash",):
                     attributed["axis_class"] += 1
-                    continue
+                    return
                 ctx.violation("variadic:single_range",
                               "view::slice(a, range) with a single range part, a[%s] on extent %d: %s (symptom: %s)" % (np_text(c.parts), n, text, sym), det)
-            continue
+            return
         SINGLE[(c.level, c.op, rk)] = ok
         if ref is not None:
-            compared += 1
+            compared[0] += 1
         if p[0] == "R":
             cl = M.axis_class(n, p[1], p[2], p[3])
             ctx.seen((c.level, c.family, cl))
             if not ok:
                 fam_fail_classes.setdefault(c.family, set()).add(cl)
         if ok:
-            continue
+            return
         if ref is False:
             attributed["axis_class"] += 1
-            continue
+            return
         attributed["own_key"] += 1
         if p[0] == "R":
             # the encodings with 64-bit signed parts share one cause: one key family
@@ -713,11 +718,11 @@ def run(ctx):
             return "v_I" if part[0] == "I" else "v_" + M.sig_to_code(part)
         return None
 
-    for c in later:
+    def pass_other(c):
         r = judge(c)
         if r is None:
-            missing += 1
-            continue
+            nmissing[0] += 1
+            return
         ctx.ev()
         ok, sym, text = r
         stat(c, ok)
@@ -732,18 +737,18 @@ def run(ctx):
             ecl = "extent_ge_2p31" if n >= 2**31 else "extent_lt_2p31"
             ctx.seen(("huge", c.family, ecl, rcl, cl))
             if ok:
-                continue
+                return
             if cl in fail_classes or cl in fam_fail_classes.get(c.family, ()):
                 attributed["axis_class"] += 1
-                continue
+                return
             attributed["own_key"] += 1
             ctx.violation("huge:%s:%s:%s" % (c.family, ecl, rcl),
                           "index level, extent %d, a[%s]: %s (symptom: %s)" % (n, np_text(c.parts), text, sym), det)
-            continue
+            return
         ecls = M.ellipsis_class(c.parts, len(c.shape))
         ctx.seen((c.level, c.family, c.op if not c.dyn else M.structure(c.parts), tuple(c.shape)))
         if ok:
-            continue
+            return
         tainted = False
         for p, n in zip(c.parts, part_extents(c)):
             if p[0] == "E":
@@ -754,19 +759,37 @@ def run(ctx):
                 break
         if tainted:
             attributed["axis_class"] += 1
-            continue
+            return
         attributed["own_key"] += 1
         ctx.violation("multi:%s:%s" % (c.family, ecls),
                       "%s level, %s, a[%s] on shape %s: %s (symptom: %s; every part is correct on its own axis)" % (
                           lvl(c), c.op, np_text(c.parts), c.shape, text, sym), det)
 
+    ORDER = ["c05_ix_single", "c05_v_single", "c05_ix_dyn", "c05_ix_either", "c05_v_dyn", "c05_probe_variadic"]
+    for b in ORDER + sorted(k for k in by_bin if k not in ORDER):
+        if b not in by_bin:
+            continue
+        execute(b)
+        cs = by_bin.pop(b)
+        for c in cs:
+            if is_ref(c):
+                pass_ref(c)
+        for c in cs:
+            if not is_ref(c) and is_single(c):
+                pass_single(c)
+        for c in cs:
+            if not is_ref(c) and not is_single(c):
+                pass_other(c)
+    results.clear()
+    ctx.set("crashes_contained", ncrash[0])
+    missing = nmissing[0]
     if missing:
         ctx.inconc("%d cases produced no record" % missing)
     nfail = sum(v[1] for v in stats.values())
     ctx.rule = ("exhaustive single axis: extents 1..%d x start/stop in [-(n+2), n+2] or omitted x step in +-1..3 or omitted for the 12 packed "
                 "None-patterns x {int, long long parts} x 3 shape kinds, index-array parts, 15 run-time list encodings and 12 either-list encodings "
                 "(index level) and 14 packed + 10 run-time encodings (view level, 5 routes each); every multi-axis type pattern x feasible dimension with "
-                "fixed values + %s multi-axis combinations over %d type patterns; deterministic huge-extent grid (2^24-1..2^40)%s. "
+                "fixed values + %s multi-axis combinations over %d (level, type pattern) instantiations; deterministic huge-extent grid (2^24-1..2^40)%s. "
                 "distinct = (level, encoding family, argument class | pattern, shape) tuples"
                 % (maxn, "sampled" if quick else "exhaustive 2-axis (extents 1..3) + sampled 2..4-part", len(multi_ops()),
                    "" if quick else " + 20000 sampled huge cases"))
@@ -783,12 +806,11 @@ def run(ctx):
         fams[f] = fams.get(f, 0) + 1
     ctx.set("violation_keys_by_kind", fams)
     ctx.set("all_violation_keys", sorted(ctx.viol))
-    ctx.set("encoding_cases_compared_with_reference", compared)
+    ctx.set("encoding_cases_compared_with_reference", compared[0])
     ctx.set("hook_events", hacc.summary())
     ctx.set("not_generated", ["index with fewer parts than axes and no ellipsis (a[1:3] on a 2-d array leaves the trailing extents 0: unchecked precondition)",
                               "integer part outside [-n, n)", "step 0"])
     if hacc.events.get(2, 0) == 0:
         ctx.inconc("view bounds hook never fired")
-    for c in g.cases[:1] + [c for c in g.cases if c.mode == "multi"][:3] + [c for c in g.cases if c.mode == "huge"][:2]:
-        if c.cid in results:
-            ctx.sample(dict(case=c.brief(), record=" ".join(split_hooks(results[c.cid])[0][:40])))
+    for smp in sample_lines:
+        ctx.sample(smp)
